@@ -85,6 +85,10 @@ async def tcp_messages(n_msgs, marks_at):
         async def q(self) -> bytes:
             return b"1"
 
+        @RegexCommand(rb"BAD")
+        async def bad(self) -> str:
+            return "a str reply cannot be written in the byte format: the reply task fails"
+
     interrupts = []
 
     async def raise_interrupt():
@@ -101,7 +105,7 @@ async def tcp_messages(n_msgs, marks_at):
                 return b""
             self.n += 1
             await asyncio.sleep(0)
-            return b"P=%d" % self.n if self.n % 2 else b"Q?"
+            return b"P=%d" % self.n if self.n % 3 == 0 else (b"Q?" if self.n % 3 == 1 else b"BAD")
 
     class Writer:
         def __init__(self):
@@ -126,10 +130,13 @@ async def tcp_messages(n_msgs, marks_at):
     t = asyncio.ensure_future(handle(r, w))
     marks = {}
     loop = asyncio.get_event_loop()
-    while r.n < n_msgs or len(w.out) < n_msgs:
+    handled = lambda: r.n
+    idle = 0
+    while idle < 20:
         await asyncio.sleep(0)
+        idle = idle + 1 if r.n >= n_msgs else 0
         for m in marks_at:
-            if m not in marks and len(w.out) >= m:
+            if m not in marks and r.n >= m:
                 gc.collect()
                 marks[m] = {"live_tasks": len([x for x in asyncio.all_tasks(loop) if not x.get_name().startswith("harness")]),
                             "retained_done_tasks": sum(1 for o in gc.get_objects() if isinstance(o, asyncio.Task) and o.done())}
